@@ -475,6 +475,8 @@ def run(ctx):
     robots_after_verdict_rule(ctx, 'C02-D4')
     from .common import hostnames_agreement_rule
     hostnames_agreement_rule(ctx, 'C02-D5')
+    from .common import prefilter_judges_child_rule
+    prefilter_judges_child_rule(ctx, 'C02-D4')
 
     # ------------------------------------------------------------------ D6
     from .common import child_record_rules
